@@ -39,6 +39,28 @@ Definition optN_eqb (a b : option N) : bool :=
   | _, _ => false
   end.
 
+(* a next hop as stored with a path (bgp::Nexthop): IPv4, 16-byte IPv6, or 32-byte
+   IPv6 global + link-local.  Next-hop tracking, the unreachable set and the FIB
+   work on its address ([Nexthop::addr]: the global part).  Address ids below 100
+   stand for IPv4 addresses, the others for IPv6 addresses. *)
+Inductive nexthop := NhV4 (a : N) | NhV6 (a : N) | NhV6LL (a l : N).
+Definition nh_addr (n : nexthop) : N := match n with NhV4 a | NhV6 a | NhV6LL a _ => a end.
+Definition nh_eqb (x y : nexthop) : bool :=
+  match x, y with
+  | NhV4 a, NhV4 b | NhV6 a, NhV6 b => a =? b
+  | NhV6LL a l, NhV6LL b m => (a =? b) && (l =? m)
+  | _, _ => false
+  end.
+Definition optnh_eqb (x y : option nexthop) : bool :=
+  match x, y with
+  | None, None => true
+  | Some a, Some b => nh_eqb a b
+  | _, _ => false
+  end.
+Definition oaddr (o : option nexthop) : option N :=
+  match o with Some n => Some (nh_addr n) | None => None end.
+Definition nh_of_addr (a : N) : nexthop := if a <? 100 then NhV4 a else NhV6 a.
+
 Record attr := { a_pref : N; a_llgrc : bool; a_nollgr : bool; a_rts : list N }.
 
 Record entry := {
@@ -46,12 +68,15 @@ Record entry := {
   e_sess : N;                 (* which Arc<Source> of that peer *)
   e_pid : N;                  (* remote path id *)
   e_lpid : N;                 (* local path id *)
-  e_nh : option N;
+  e_nhv : option nexthop;
   e_tok : N;                  (* Arc identity of the attribute block *)
   e_attr : attr;
   e_filt : bool;              (* FLAG_FILTERED *)
   e_inv : bool                (* FLAG_NEXTHOP_INVALID *)
 }.
+
+(* the address of a path's next hop *)
+Definition e_nh (e : entry) : option N := oaddr (e_nhv e).
 
 Record dest := { d_l : list entry; d_next : N }.
 Definition dest0 : dest := {| d_l := []; d_next := 1 |}.
@@ -77,7 +102,7 @@ Inductive req :=
 Record change := { ch_bc : bool; ch_ac : bool; ch_cur : list entry }.
 
 Inductive op :=
-| Insert (peer sess : N) (p : prefix) (pid : N) (nh : option N) (tok : N)
+| Insert (peer sess : N) (p : prefix) (pid : N) (nh : option nexthop) (tok : N)
 | Remove (peer sess : N) (p : prefix) (pid : N)
 | DropPeer (peer : N)
 | MarkStale (peer : N)
@@ -169,7 +194,7 @@ Definition best (l : list entry) : option entry := hd_error (eligs l).
 
 (* (Arc::as_ptr(source), Arc::as_ptr(attr), nexthop) *)
 Definition bk_eqb (a b : entry) : bool :=
-  src_eqb (esrc a) (esrc b) && (e_tok a =? e_tok b) && optN_eqb (e_nh a) (e_nh b).
+  src_eqb (esrc a) (esrc b) && (e_tok a =? e_tok b) && optnh_eqb (e_nhv a) (e_nhv b).
 Definition obk_eqb (a b : option entry) : bool :=
   match a, b with
   | None, None => true
@@ -249,7 +274,7 @@ Fixpoint remove_first {A} (f : A -> bool) (l : list A) : list A :=
   end.
 
 (* Table::insert (no prefix limit, not deferring) *)
-Definition do_insert (fl : flags) (d : dest) (src : N * N) (pid : N) (nh : option N) (tok : N)
+Definition do_insert (fl : flags) (d : dest) (src : N * N) (pid : N) (nh : option nexthop) (tok : N)
            (at_ : attr) (filtered inv : bool) : dest * option change :=
   let l := d_l d in
   let old := best l in
@@ -259,7 +284,7 @@ Definition do_insert (fl : flags) (d : dest) (src : N * N) (pid : N) (nh : optio
                         | Some r => (e_lpid r, d_next d)
                         | None => alloc_path_id l1 (d_next d)
                         end in
-  let e := {| e_peer := fst src; e_sess := snd src; e_pid := pid; e_lpid := lpid; e_nh := nh;
+  let e := {| e_peer := fst src; e_sess := snd src; e_pid := pid; e_lpid := lpid; e_nhv := nh;
               e_tok := tok; e_attr := at_; e_filt := filtered; e_inv := inv |} in
   let l2 := insert_sorted fl e l1 in
   let bc := negb (obk_eqb old (best l2)) in
@@ -315,9 +340,33 @@ Definition do_restale (fl' : flags) (peer : N) (d : dest) : dest * option change
   ({| d_l := l'; d_next := d_next d |},
    if bc || any_unf then Some {| ch_bc := bc; ch_ac := any_unf; ch_cur := eligs l' |} else None).
 
+(* Table::restale_llgr for one destination: one change per eligible path of the
+   marked peer (each names one replaced path and carries the same path list), the
+   first flagged best_changed when the best moved or is itself a marked path *)
+Definition do_restale_llgr (fl' : flags) (peer : N) (d : dest) : dest * list change :=
+  let l := d_l d in
+  if negb (existsb (fun e => e_peer e =? peer) l) then (d, []) else
+  let old := best l in
+  let any_unf := existsb (fun e => (e_peer e =? peer) && negb (e_filt e)) l in
+  let l' := isort fl' l in
+  let marked := filter (fun e => e_peer e =? peer) (eligs l') in
+  let best_marked := match best l', marked with
+                     | Some b, m :: _ => e_lpid m =? e_lpid b
+                     | _, _ => false
+                     end in
+  let bc := negb (olp_eqb old (best l')) || best_marked in
+  ({| d_l := l'; d_next := d_next d |},
+   if bc || any_unf then
+     match marked with
+     | [] => [{| ch_bc := bc; ch_ac := any_unf; ch_cur := eligs l' |}]
+     | _ :: rest => {| ch_bc := bc; ch_ac := true; ch_cur := eligs l' |} ::
+                    map (fun _ => {| ch_bc := false; ch_ac := true; ch_cur := eligs l' |}) rest
+     end
+   else []).
+
 Definition nh_is (a : N) (e : entry) : bool := optN_eqb (e_nh e) (Some a).
 Definition set_inv (b : bool) (e : entry) : entry :=
-  {| e_peer := e_peer e; e_sess := e_sess e; e_pid := e_pid e; e_lpid := e_lpid e; e_nh := e_nh e;
+  {| e_peer := e_peer e; e_sess := e_sess e; e_pid := e_pid e; e_lpid := e_lpid e; e_nhv := e_nhv e;
      e_tok := e_tok e; e_attr := e_attr e; e_filt := e_filt e; e_inv := b |}.
 
 (* Table::update_nexthop_validity for one destination *)
@@ -340,11 +389,11 @@ Definition pol_act (pol : N) (peer : N) : action :=
                   | None => AAccept
                   end
   end.
-Definition apply_import (pol peer : N) (nh : option N) : bool * option N :=
+Definition apply_import (pol peer : N) (nh : option nexthop) : bool * option nexthop :=
   match pol_act pol peer with
   | AAccept => (false, nh)
   | AReject => (true, nh)
-  | ASetNh a => (false, Some a)
+  | ASetNh a => (false, Some (nh_of_addr a))
   end.
 
 Definition opt_reg (o : option N) : list req := match o with Some a => [Reg a] | None => [] end.
@@ -363,9 +412,10 @@ Definition reset_one (fl : flags) (inv : list N) (pol : N) (p : prefix) (acc : d
   let d := fst acc in
   let peer := e_peer e0 in
   let old_nh := lookup_nexthop d peer (e_pid e0) in
-  let '(filtered, nh) := apply_import pol peer (e_nh e0) in
-  let invf := match nh with Some a => memN a inv | None => false end in
-  let nht := if negb (peer =? 0) && negb (optN_eqb old_nh nh) then opt_reg nh ++ opt_unreg old_nh else [] in
+  let '(filtered, nh) := apply_import pol peer (e_nhv e0) in
+  let invf := match oaddr nh with Some a => memN a inv | None => false end in
+  let nht := if negb (peer =? 0) && negb (optN_eqb old_nh (oaddr nh))
+             then opt_reg (oaddr nh) ++ opt_unreg old_nh else [] in
   let '(d', ch) := do_insert fl d (esrc e0) (e_pid e0) nh (e_tok e0) (e_attr e0) filtered invf in
   (d', snd acc ++ nht ++ distribute_opt fl p ch).
 
@@ -399,11 +449,11 @@ Definition step (s : st) (o : op) : st * list req :=
     let d := s_get s p in
     let old_nh := lookup_nexthop d peer pid in
     let '(filtered, nh) := apply_import (s_pol s) peer nh0 in
-    let invf := match nh with Some a => memN a (s_inv s) | None => false end in
+    let invf := match oaddr nh with Some a => memN a (s_inv s) | None => false end in
     let '(d', ch) := do_insert (s_fl s) d (peer, sess) pid nh tok (attr_of tok) filtered invf in
     ({| s_keys := add_key p (s_keys s); s_get := upd p d' (s_get s); s_fl := s_fl s;
         s_inv := s_inv s; s_pol := s_pol s |},
-     nht_register peer nh old_nh ++ distribute_opt (s_fl s) p ch)
+     nht_register peer (oaddr nh) old_nh ++ distribute_opt (s_fl s) p ch)
   | Remove peer sess p pid =>
     let '(d', ch, r) := do_remove (s_get s p) peer pid in
     ({| s_keys := s_keys s; s_get := upd p d' (s_get s); s_fl := s_fl s;
@@ -415,14 +465,15 @@ Definition step (s : st) (o : op) : st * list req :=
      end)
   | DropPeer peer => purge_pass s (fun e => e_peer e =? peer)
   | DropStale peer => purge_pass s (fun e => (e_peer e =? peer) && e_stale (s_fl s) e)
-  | DropLlgr peer => purge_pass s (fun e => (e_peer e =? peer) && e_llgr (s_fl s) e)
+  | DropLlgr peer => purge_pass s (fun e => (e_peer e =? peer) && e_srcllgr (s_fl s) e)
   | MarkStale peer =>
     let fl' := {| f_stale := srcs_of s peer ++ f_stale (s_fl s); f_llgr := f_llgr (s_fl s) |} in
     sweep s fl' (fun p d => let '(d', ch) := do_restale fl' peer d in (d', distribute_opt fl' p ch))
   | MarkLlgr peer =>
     let fl' := {| f_stale := f_stale (s_fl s); f_llgr := srcs_of s peer ++ f_llgr (s_fl s) |} in
     let '(s1, r1) := sweep s fl' (fun p d =>
-                       let '(d', ch) := do_restale fl' peer d in (d', distribute_opt fl' p ch)) in
+                       let '(d', chs) := do_restale_llgr fl' peer d in
+                       (d', flat_map (distribute fl' p) chs)) in
     let '(s2, r2) := purge_pass s1 (fun e => (e_peer e =? peer) && a_nollgr (e_attr e)) in
     (s2, r1 ++ r2)
   | NhValidity a reachable =>
@@ -452,10 +503,16 @@ Definition v_req (r : req) : val :=
   | Reg a => VL [VN 1; VN a]
   | Unreg a => VL [VN 2; VN a]
   end.
+Definition v_nh (n : nexthop) : val :=
+  match n with
+  | NhV4 a => VL [VN 0; VN a]
+  | NhV6 a => VL [VN 1; VN a]
+  | NhV6LL a l => VL [VN 2; VN a; VN l]
+  end.
 Definition v_entry (e : entry) : val :=
-  VL [VN (e_peer e); VN (e_sess e); VN (e_pid e); VOpt VN (e_nh e); VN (e_tok e); VB (negb (e_filt e))].
+  VL [VN (e_peer e); VN (e_sess e); VN (e_pid e); VOpt v_nh (e_nhv e); VN (e_tok e); VB (negb (e_filt e))].
 Definition v_elig (fl : flags) (e : entry) : val :=
-  VL [VN (e_peer e); VN (e_sess e); VOpt VN (e_nh e); VN (e_tok e); VB (e_stale fl e); VB (e_srcllgr fl e)].
+  VL [VN (e_peer e); VN (e_sess e); VOpt v_nh (e_nhv e); VN (e_tok e); VB (e_stale fl e); VB (e_srcllgr fl e)].
 Definition v_view (s : st) : val :=
   VL (flat_map (fun p =>
         match d_l (s_get s p) with
